@@ -654,7 +654,11 @@ def rule_R7(res, prog):
                     for nd in walk(t["c"]):
                         if nd.get("k") == "bin" and nd["op"] in ("<", "<=", ">", ">=", "!=") and \
                                 (strip(nd["l"]) or {}).get("id") == vid and (strip(nd["r"]) or {}).get("k") == "int":
-                            const_bound = strip(nd["r"])["v"]
+                            # an upper cap of an increasing counter (v < K); `v > 0` of a count-down loop is not a cap
+                            if nd["op"] in ("<", "<=", "!=") and strip(nd["r"])["v"] > 0:
+                                const_bound = strip(nd["r"])["v"]
+                            elif const_bound is None:
+                                const_bound = -1
                         # the loop also tests a byte read through a pointer (*p == 0): a scan over record bytes
                         if nd.get("k") == "un" and nd["op"] == "*" and "char" in (nd.get("t") or ""):
                             data_loop = True
@@ -675,7 +679,7 @@ def rule_R7(res, prog):
             n += 1
             ok = (v.get("t") or "") not in NARROW
             f_ = None
-            if ok and const_bound is not None and const_bound < 16384:
+            if ok and const_bound is not None and 0 < const_bound < 16384:
                 ok = False
                 f_ = Finding(PROP, rid, fn.name, "scan over record bytes capped at %d" % const_bound,
                              "%s:%s %s(): the loop that counts %s over record bytes also stops when the count reaches %d, less than the "
